@@ -383,6 +383,9 @@ static int c07_math(const char* fn, const char* sizefn, buf_t st, size_t size, i
 		default: if (!gfpCreate(r, mod, no, st.p)) { bfree(kb); free(mod); return 1; } break;
 		}
 		if (r->hdr.keep > keep || r->deep > size) { fprintf(stderr, "Assertion c07: object keep/deep %zu/%zu exceed declared %zu/%zu\n", r->hdr.keep, r->deep, keep, size); abort(); }
+		/* the specific constructors record exactly what their *_keep()/_deep() report (zmCreate/gfpCreate: the maximum over the kinds) */
+		if ((kind <= 3 || kind == 6) && (r->hdr.keep != keep || r->deep != size)) { fprintf(stderr, "Assertion c07: objKeep/deep %zu/%zu of ring kind %d differ from *_keep/_deep %zu/%zu\n", r->hdr.keep, r->deep, kind, keep, size); abort(); }
+		if (r->n != W_OF_O(no) || r->no != no) { fprintf(stderr, "Assertion c07: ring dimensions\n"); abort(); }
 		ring_ops(r, 3);
 		bfree(kb); free(mod);
 		return 1;
@@ -400,28 +403,33 @@ static int c07_math(const char* fn, const char* sizefn, buf_t st, size_t size, i
 		f = (qr_o*)kb.p;
 		if (!gf2Create(f, pp, st.p)) { bfree(kb); return 1; }
 		if (f->hdr.keep > kb.n || f->deep > size) { fprintf(stderr, "Assertion c07: gf2 keep/deep %zu/%zu exceed declared %zu/%zu\n", f->hdr.keep, f->deep, kb.n, size); abort(); }
+		/* a pentanomial field fills gf2Create_keep(m) exactly (the trinomial description is shorter) */
+		if (pp[2] != 0 && f->hdr.keep != kb.n) { fprintf(stderr, "Assertion c07: objKeep %zu of GF(2^%zu) differs from gf2Create_keep %zu\n", f->hdr.keep, pp[0], kb.n); abort(); }
+		if (f->n != W_OF_B(pp[0]) || f->no != O_OF_B(pp[0])) { fprintf(stderr, "Assertion c07: gf2 dimensions\n"); abort(); }
 		{
 			size_t nn = f->n, i;
 			buf_t s2 = stk(f->deep);
 			word *a = ww(nn), *b = ww(nn), *c = wo(nn);
 			octet* oct = (octet*)malloc(f->no);
+			int fld;
+			{ buf_t s0 = stk(gf2IsValid_deep(nn)); fld = gf2IsValid(f, s0.p); bfree(s0); }   /* irreducible modulus? inversion only then */
 			wwTrimHi(a, nn, pp[0]); wwTrimHi(b, nn, pp[0]);
 			if (wwIsZero(b, nn)) b[0] = 1;
 			for (i = 0; i < 3; ++i)
 			{
 				qrTo(oct, a, f, s2.p); qrFrom(c, oct, f, s2.p);
 				qrAdd(c, a, b, f); qrMul(c, a, b, f, s2.p); qrSqr(c, c, f, s2.p);
-				qrInv(c, b, f, s2.p); qrDiv(c, a, b, f, s2.p);
+				if (fld) { qrInv(c, b, f, s2.p); qrDiv(c, a, b, f, s2.p); }
 				wwCopy(a, c, nn);
 			}
 			bfree(s2);
 			/* gf2Tr / gf2QSolve with exact declared depth */
 			{
 				buf_t s3 = stk(gf2Tr_deep(nn, f->deep));
-				gf2Tr(a, f, s3.p);
+				if (fld) gf2Tr(a, f, s3.p);       /* the trace is 0/1 only in a field (\\expect f is valid) */
 				bfree(s3);
 				s3 = stk(gf2QSolve_deep(nn, f->deep));
-				gf2QSolve(c, a, b, f, s3.p);
+				if (fld && pp[0] % 2) gf2QSolve(c, a, b, f, s3.p);
 				bfree(s3);
 				s3 = stk(gf2IsValid_deep(nn));
 				gf2IsValid(f, s3.p);
@@ -458,7 +466,7 @@ static int c07_math(const char* fn, const char* sizefn, buf_t st, size_t size, i
 		s2 = stk(ecCreateGroup_deep(f->deep));
 		if (!ecCreateGroup(ec, 0, prm->yG, prm->q, no, 1, s2.p)) { fprintf(stderr, "Assertion c07: ecCreateGroup failed\n"); abort(); }
 		bfree(s2);
-		if (ec->hdr.keep > eb.n || ec->deep > ecpCreateJ_deep(nn, f->deep)) { fprintf(stderr, "Assertion c07: ec keep/deep exceed declared\n"); abort(); }
+		if (ec->hdr.keep != eb.n || ec->deep > ecpCreateJ_deep(nn, f->deep)) { fprintf(stderr, "Assertion c07: objKeep %zu of the curve differs from ecpCreateJ_keep %zu (or deep exceeds)\n", ec->hdr.keep, eb.n); abort(); }
 		{
 			word *d = ww(nn), *d2 = ww(nn / 2 + 1), *b = wo(2 * nn), *c = wo(2 * nn);
 			size_t mlen = 1 + (size_t)(rnd() % nn);
@@ -548,7 +556,7 @@ static int c07_math(const char* fn, const char* sizefn, buf_t st, size_t size, i
 		s2 = stk(ecCreateGroup_deep(f->deep));
 		if (!ecCreateGroup(ec, prm->P, prm->P + f->no, prm->n, f->no, prm->c, s2.p)) { fprintf(stderr, "Assertion c07: ecCreateGroup(ec2) failed\n"); abort(); }
 		bfree(s2);
-		if (ec->hdr.keep > eb.n || ec->deep > ec2CreateLD_deep(nn, f->deep)) { fprintf(stderr, "Assertion c07: ec2 keep/deep exceed declared\n"); abort(); }
+		if (ec->hdr.keep != eb.n || ec->deep > ec2CreateLD_deep(nn, f->deep)) { fprintf(stderr, "Assertion c07: objKeep %zu of the curve differs from ec2CreateLD_keep %zu (or deep exceeds)\n", ec->hdr.keep, eb.n); abort(); }
 		{
 			word *d = ww(nn), *b = wo(2 * nn), *c = wo(2 * nn);
 			wwTrimHi(d, nn, prm->p[0] - 1);
